@@ -335,9 +335,28 @@ func c21Lengths() *explore.Scenario {
 		Run: func(x *explore.X) (r explore.Result) {
 			e := base[x.Choose("encoder", len(base))]
 			cn := []string{"small", "chain3"}[x.Choose("cert", 2)]
-			kind := x.Choose("kind", len(lens)+2)
+			kind := x.Choose("kind", len(lens)+3)
 			cs := c21Case{certName: cn, enc: e, advert: []tls.CertCompressionAlgo{tls.CertCompressionAlgo(e.alg)}, declared: func(n int) int { return n }, expect: "bad_certificate"}
 			switch {
+			case kind == len(lens)+2:
+				// the hello was built advertising the server's algorithm, then the extension object was
+				// edited to another one: only that one is on the wire
+				cs.label = "algorithm-replaced-after-build"
+				alg, other := tls.CertCompressionAlgo(e.alg), tls.CertCompressionAlgo(e.alg%3+1)
+				cs.prepare = func(u *tls.UConn) error {
+					if err := u.ApplyPreset(compressCertSpec([]tls.CertCompressionAlgo{alg})); err != nil {
+						return err
+					}
+					if err := u.BuildHandshakeState(); err != nil {
+						return err
+					}
+					for _, ex := range u.Extensions {
+						if cc, ok := ex.(*tls.UtlsCompressCertExtension); ok {
+							cc.Algorithms = []tls.CertCompressionAlgo{other}
+						}
+					}
+					return nil
+				}
 			case kind < len(lens):
 				cs.declared = lens[kind].f
 				cs.label = "declared" + lens[kind].name
@@ -506,7 +525,7 @@ func c21Scenarios(thorough bool) []*explore.Scenario {
 func init() {
 	register(&Prop{ID: "C21", Level: "exploration", Variant: "A", Scenarios: c21Scenarios,
 		Run: func(c *explore.Check, thorough bool) {
-			c.Rule = "the server's Certificate message is replaced (verif hook, before it enters the server transcript) by a CompressedCertificate: every encoder structure of a finite menu (zlib 4 levels, brotli 3 qualities x 2 windows, zstd 3 levels x 2 windows + EncodeAll, each x flush {never, every 7 B, every 512 B}) x certificate message size {1 cert, 3-cert chain, 60 KiB, 250 KiB} x advertised list {only that algorithm, two, all three} (and, for the small certificate, with a CertificateRequest preceding it) must be recovered exactly; declared length {-1,-100,0,+1,+100,2^24-1}, unadvertised algorithm and extension-removed-after-build must be refused (bad_certificate); every byte XOR 0xff and every truncation of the compressed stream of the small certificate must be refused or decode to the identical certificates; parrots that advertise compression x each algorithm. distinct = case"
+			c.Rule = "the server's Certificate message is replaced (verif hook, before it enters the server transcript) by a CompressedCertificate: every encoder structure of a finite menu (zlib 4 levels, brotli 3 qualities x 2 windows, zstd 3 levels x 2 windows + EncodeAll, each x flush {never, every 7 B, every 512 B}) x certificate message size {1 cert, 3-cert chain, 60 KiB, 250 KiB} x advertised list {only that algorithm, two, all three} (and, for the small certificate, with a CertificateRequest preceding it) must be recovered exactly; declared length {-1,-100,0,+1,+100,2^24-1}, unadvertised algorithm, algorithm replaced in the extension object after the first build, and extension-removed-after-build must be refused (bad_certificate); every byte XOR 0xff and every truncation of the compressed stream of the small certificate must be refused or decode to the identical certificates; parrots that advertise compression x each algorithm. distinct = case"
 			c.Assumptions = []string{"encoders: compress/zlib, andybalholm/brotli, klauspost/compress/zstd from the module cache", "the hook position keeps client and server transcripts in agreement (both hash the CompressedCertificate message)"}
 			runAll(c, c21Scenarios(thorough), 0)
 			c.Gate(c.Total.Counters["recovered_exactly"] > 50, "non-vacuity: %d exact recoveries", c.Total.Counters["recovered_exactly"])
